@@ -236,12 +236,29 @@ def run_single(case):
         evals += 1
         if have != want:
             fails.append(_fail("f(x,None) is the cross-section y -> f(x,y)", dict(inp0, x=list(x)), have, want))
+        elif not isinstance(sec, str):
+            # ... and evaluated the way a user evaluates it: by the acceptor's own __call__
+            for y in strs:
+                hv = _call(sec, y)
+                evals += 1
+                w = want.get(y, Poly.zero)
+                if not (isinstance(hv, Poly) and hv == w):
+                    fails.append(_fail("f(x,None)(y) == f(x,y)", dict(inp0, x=list(x), y=list(y)), hv, w))
+                    break
         sec = _call(f, None, x)
         want = {xx: w for (xx, y), w in tF.items() if y == x}
         have = table_of(sec, fst=False)
         evals += 1
         if have != want:
             fails.append(_fail("f(None,y) is the cross-section x -> f(x,y)", dict(inp0, y=list(x)), have, want))
+        elif not isinstance(sec, str):
+            for y in strs:
+                hv = _call(sec, y)
+                evals += 1
+                w = want.get(y, Poly.zero)
+                if not (isinstance(hv, Poly) and hv == w):
+                    fails.append(_fail("f(None,y)(x) == f(x,y)", dict(inp0, y=list(x), x=list(y)), hv, w))
+                    break
     for axis in (0, 1):
         pr = _call(f.project, axis)
         want = {}
@@ -251,6 +268,14 @@ def run_single(case):
         evals += 1
         if have != want:
             fails.append(_fail("project(axis) sums out the other tape", dict(inp0, axis=axis), have, want))
+        elif not isinstance(pr, str):
+            for y in strs:
+                hv = _call(pr, y)
+                evals += 1
+                w = want.get(y, Poly.zero)
+                if not (isinstance(hv, Poly) and hv == w):
+                    fails.append(_fail("project(axis)(x) == sum over the other tape", dict(inp0, axis=axis, x=list(y)), hv, w))
+                    break
         if not isinstance(pr, str):
             dg = _call(FST.diag, pr)
             have = table_of(dg)
